@@ -87,7 +87,7 @@ func Pct(c interface{}, id int, tag string, kids []interface{}) (interface{}, er
 	if err := enter(c, id); err != nil {
 		return nil, err
 	}
-	if tag != "%s|%d|%%|%v|%!" {
+	if tag != "%s|%d|%%|%v|%!|two  blanks" {
 		return &Node{Id: id + 1000000, Kids: kids}, nil
 	}
 	return &Node{Id: id, Kids: kids}, nil
@@ -341,6 +341,7 @@ AD_HEAD = r'''package ad%(i)d
 import (
 	"bytes"
 	"fmt"
+	"os"
 	"strconv"
 	"strings"
 	"sync"
@@ -350,6 +351,7 @@ import (
 )
 
 var _ = bytes.Equal
+var _ = os.Remove
 var _ = strings.Join
 var _ sync.Mutex
 var _ = fmt.Sprint
@@ -428,7 +430,33 @@ func scan(src []byte, ncalls, resetAt int) string {
 		}
 		out = append(out, s)
 	}
-	return strings.Join(out, " ")
+	res := strings.Join(out, " ")
+	if resetAt < 0 {
+		// the same bytes read from a file
+		if f, err := os.CreateTemp("", "vh-lex-*.txt"); err == nil {
+			f.Write(src)
+			f.Close()
+			if lf, err := lexer.NewLexerFile(f.Name()); err == nil {
+				lf.Context = ctx
+				out2 := make([]string, 0, ncalls)
+				for k := 0; k < ncalls; k++ {
+					t := lf.Scan()
+					s := showTok(src, t)
+					if c, ok := t.Pos.Context.(*scanCtx); !ok || c != ctx {
+						s = "CTXLOST"
+					}
+					out2 = append(out2, s)
+				}
+				if r2 := strings.Join(out2, " "); r2 != res {
+					res = "NEWLEXERFILE-DIFFERS " + r2 + " VS " + res
+				}
+			} else {
+				res = "NEWLEXERFILE-ERROR " + res
+			}
+			os.Remove(f.Name())
+		}
+	}
+	return res
 }
 
 func lextab(probes []rune) string {
@@ -543,7 +571,14 @@ func parseOne(p *parser.Parser, toks []int, failAt int) (res string) {
 				o = fmt.Sprintf("acterr id=%d %s top=%d exp=[%s]", id, showAttr(e.ErrorToken, sc.idx), e.StackTop, expTypes(e.ExpectedTokens))
 			}
 		} else {
-			o = fmt.Sprintf("synerr %s top=%d exp=[%s]", showAttr(e.ErrorToken, sc.idx), e.StackTop, expTypes(e.ExpectedTokens))
+			// rendering the error (callers print it) must not change the error value, and must be repeatable
+			before := expTypes(e.ExpectedTokens)
+			m1 := e.Error()
+			m2 := e.Error()
+			if m1 != m2 || before != expTypes(e.ExpectedTokens) {
+				o = "ERRVALUE-CHANGED-BY-RENDERING "
+			}
+			o += fmt.Sprintf("synerr %s top=%d exp=[%s]", showAttr(e.ErrorToken, sc.idx), e.StackTop, expTypes(e.ExpectedTokens))
 		}
 	}
 	return fmt.Sprintf("%s | log=[%s] scans=%d", o, vh.Ints(ctx.Log), sc.k)
